@@ -513,4 +513,4 @@ MANIFEST = {
             "and validated by the correspondence + exact oracle on every run for view forests (named gap inplace_graph_iso); H_vars_only is monitored per op class.",
 }
 
-MANIFEST_ADDENDUM = 'Oracle additions: the GRU and four where-masked ufuncs among the 25 op/layer classes of the forward/mutate-input/backward monitor; 12 cases in which the index object of x[index] / x[index] = v is changed after the forward pass.'
+MANIFEST_ADDENDUM = 'Oracle additions: the GRU and four where-masked ufuncs among the 25 op/layer classes of the forward/mutate-input/backward monitor; 12 cases in which the index object of x[index] / x[index] = v is changed after the forward pass. Round 5: index arrays given as MyGrad tensors / Python lists in item assignment (program IR); slices with tensor/array bounds among the index objects changed after the forward pass; 11 operations whose list/array argument is changed after the forward pass.'
